@@ -728,7 +728,9 @@ impl Engine for SchedEngine {
                 }
             }
         }
-        let leg = if ctx.rng.chance(2, 3) {
+        // benchmarks: mostly the real parallel iterator (only it can expose an ordering that the
+        // iterator itself fails to keep; the controlled executor replaces it)
+        let leg = if ctx.rng.chance(if bench { 1 } else { 2 }, 3) {
             Leg::Controlled(gen_schedule(&mut ctx.rng, n))
         } else {
             Leg::Rayon(*ctx.rng.pick(&[2usize, 3, 8, 16]))
